@@ -940,8 +940,19 @@ class Interp:
         return None
 
     def x_Break(self, e, env, fr):
+        val = None
+        for k_ in ("x", "e", "value"):
+            if isinstance(e.get(k_), dict):
+                r = self.expr(e[k_], env, fr)
+                if r is None:
+                    return None
+                val, env = r
+                break
         if fr.loops:
-            fr.loops[-1]["brk"].append(dict(env))
+            b = dict(env)
+            if val is not None:
+                b["$break_value"] = val
+            fr.loops[-1]["brk"].append(b)
         return None
 
     def x_Continue(self, e, env, fr):
@@ -1026,6 +1037,12 @@ class Interp:
             fr.out.effects.append((pc_, "loop_return", (v_,), {"sp": e.get("sp"), "fn": fr.path}))
         if inner_rets:
             self.note(fr, "return inside an unmodelled loop", e)
+        # `loop { .. break value .. }`: the loop's value is the value of the break that ends it (of some iteration, on the havocked state)
+        bvals = [(b_.get("$pc", ()), b_["$break_value"]) for b_ in lp_["brk"] if "$break_value" in b_]
+        if bvals:
+            for pc_, v_ in bvals:
+                fr.out.effects.append((pc_, "loop_return", (v_,), {"sp": e.get("sp"), "fn": fr.path}))
+            return (self.assemble(bvals), env)
         return (UNIT, env)
 
     def plain_integer_code(self, node):
